@@ -21,9 +21,9 @@ from props.frame_common import F as FR, frame_patches
 from props import C02, C04
 
 
-def mk_backend(nant, npol, bits, taps, P, nc, k, sr):
+def mk_backend(nant, npol, bits, taps, P, nc, k, sr, asc=True):
     """real constructor; k = PFB windows per block (symbolic integer allowed), sr sample rate (symbolic allowed)"""
-    ant = C02.FakeAntenna(npol) if nant == 1 else C02.FakeArray(nant, npol)
+    ant = C02.FakeAntenna(npol, asc) if nant == 1 else C02.FakeArray(nant, npol, asc)
     ant.sample_rate = sr
     ant.dt = 1 / sr
     bps = 2 * npol * bits // 8
@@ -32,15 +32,15 @@ def mk_backend(nant, npol, bits, taps, P, nc, k, sr):
     return be, ant
 
 
-def job_ctor(nant, npol, bits, taps, P, nc):
+def job_ctor(nant, npol, bits, taps, P, nc, asc=True):
     recs = []
-    tag = f"C20:ctor:{(nant, npol, bits, taps, P, nc)}"
+    tag = f"C20:ctor:{(nant, npol, bits, taps, P, nc)}" + ('' if asc else ':descending')
     ki = z3.Int('k')
     k = Sym(z3.ToReal(ki), True)
     sr = Sym(z3.Real('sample_rate'))
     pre = [ki >= 1, sr.t > 0]
     with volt_patches():
-        leaves = core.explore(lambda: mk_backend(nant, npol, bits, taps, P, nc, k, sr)[0], pre, cap=10)
+        leaves = core.explore(lambda: mk_backend(nant, npol, bits, taps, P, nc, k, sr, asc)[0], pre, cap=10)
     bps = 2 * npol * bits // 8
     for li, leaf in enumerate(leaves):
         if leaf.kind == 'exc':
@@ -57,7 +57,7 @@ def job_ctor(nant, npol, bits, taps, P, nc):
         r, m = core.check(pre + leaf.pc + leaf.side + [z3.Or(*dis)], timeout_ms=60000)
         recs.append(q(f"{tag}:leaf{li}", r))
         if r == 'sat':
-            recs.append(cex('C20:ctor', 'samples_per_block / time_per_block / tbin are not block_size/(ants*chans*bytes), spb*P/rate, P/rate', dict(fn='ctor', nant=nant, npol=npol, bits=bits, taps=taps, P=P, nc=nc), name=f"{tag}:leaf{li}"))
+            recs.append(cex('C20:ctor', 'samples_per_block / time_per_block / tbin are not block_size/(ants*chans*bytes), spb*P/rate, P/rate', dict(fn='ctor', nant=nant, npol=npol, bits=bits, taps=taps, P=P, nc=nc, asc=asc), name=f"{tag}:leaf{li}"))
     return recs
 
 
@@ -348,9 +348,9 @@ def job_helpers():
 
 
 # ------------------------------------------------------------------ concrete oracles
-def _real_backend(nant=1, nc=2, k=3, sr=1024.0, P=8, taps=2, npol=2, bits=8):
+def _real_backend(nant=1, nc=2, k=3, sr=1024.0, P=8, taps=2, npol=2, bits=8, asc=True):
     from setigen.voltage import backend as bk, polyphase_filterbank as pf, quantization as qz, antenna as an
-    src = an.Antenna(sample_rate=sr, num_pols=npol, seed=1) if nant == 1 else an.MultiAntennaArray(nant, sample_rate=sr, num_pols=npol, delays=[0] * nant, seed=1)
+    src = an.Antenna(sample_rate=sr, num_pols=npol, ascending=asc, seed=1) if nant == 1 else an.MultiAntennaArray(nant, sample_rate=sr, num_pols=npol, ascending=asc, delays=[0] * nant, seed=1)
     for st in (src.streams if nant == 1 else [s for a in src.antennas for s in a.streams]):
         st.add_noise(0, 1)
     return bk.RawVoltageBackend(src, qz.RealQuantizer(), pf.PolyphaseFilterbank(num_taps=taps, num_branches=P), qz.ComplexQuantizer(num_bits=bits), start_chan=0,
@@ -443,7 +443,7 @@ def replay_num_blocks(p):
 
 def replay_ctor(p):
     try:
-        be, _ = _real_backend(nant=p['nant'], nc=p['nc'], P=p['P'], taps=p['taps'], npol=p['npol'], bits=p['bits'], k=5, sr=3e9)
+        be, _ = _real_backend(nant=p['nant'], nc=p['nc'], P=p['P'], taps=p['taps'], npol=p['npol'], bits=p['bits'], k=5, sr=3e9, asc=p.get('asc', True))
     except Exception as e:
         return True, f"constructor raised {e!r}"
     bps = 2 * p['npol'] * p['bits'] // 8
@@ -510,6 +510,7 @@ def main():
         space = space + [(na, npol, bits, taps, P, nc) for na in (1, 2) for npol in (1, 2) for bits in (8, 4) for (taps, P, nc) in ((2, 4, 2), (8, 1024, 64), (4, 32, 16))]
     for cfg in space:
         jobs.append(('job_ctor', cfg))
+        jobs.append(('job_ctor', cfg + (False,)))
     for nant, nc in ((1, 2), (2, 3), (4, 1)):
         for mode in ('exact', 'fp'):
             jobs.append(('job_num_blocks', (nant, nc, mode)))
